@@ -786,3 +786,39 @@ fn error_pdu_layout() {
     error_layout_body::<0, 0>();
     error_layout_body::<8, 5>();
 }
+
+/// @tier quick thorough
+/// @fn rpki::rtr::pdu::EndOfData::read_payload
+/// @bounds header of type 7 with length 24 and version 3 (the first
+///   unknown version; 255 has its own member); a complete 16-byte body of
+///   arbitrary bytes is available; unwind 5
+/// @says an End of Data PDU announcing an unknown protocol version is
+///   refused with an error even when its length matches the 24-byte form
+///   and the whole body is there
+#[kani::proof]
+#[kani::unwind(5)]
+fn end_of_data_unknown_version_refused() {
+    kani::cover!(true);
+    eod_unknown_version(3);
+}
+
+fn eod_unknown_version(v: u8) {
+    let body: [u8; 16] = kani::any();
+    let header = Header::new(v, 7, 0, 24);
+    let mut rd: &[u8] = &body;
+    let r = block_on(EndOfData::read_payload(header, &mut rd), 1).unwrap();
+    let bad = r.is_ok();
+    std::mem::forget(r);
+    assert!(!bad);
+}
+
+/// @tier quick thorough
+/// @fn rpki::rtr::pdu::EndOfData::read_payload
+/// @bounds as end_of_data_unknown_version_refused, for version 255
+/// @says see end_of_data_unknown_version_refused
+#[kani::proof]
+#[kani::unwind(5)]
+fn end_of_data_unknown_version_255_refused() {
+    kani::cover!(true);
+    eod_unknown_version(255);
+}
